@@ -700,7 +700,7 @@ def gen_history(rng, length, extra=()):
 
 
 NESTED_HANDLER_RAISE = ("nested_handler_raise",
-                        "(with-handler (lambda (e) 'outer) (+ 1 (with-handler (lambda (e) (error \"again\")) (error \"x\"))))", "any")
+                        "(with-handler (lambda (e) 'outer) (+ 1 (with-handler (lambda (e) (error \"again\")) (error \"x\"))))", "ok")
 DEEP_RECURSION = ("deep_recursion", "(c07-deep 20000000)", "err")
 STACK_PROBE = "(#%verif-stack-depth)"
 
